@@ -43,4 +43,13 @@ PROPS = {
                  "hooks are observers (a hook that itself writes re-enters Write; out of scope as the property excludes direct field assignment)"],
         assumptions=["context helpers modelled: JSON/JSONPretty (preset + one serializer write), String/Blob/Stream (WriteHeader + Write), NoContent, Redirect; XML/JSONP helpers are not modelled"],
     ),
+    "C10": dict(
+        n_quick=6000, n_thorough=250000, incoq=120, gen=["Src_ip.v"],
+        level_text="Theorems C10_* (Props/C10.v): for every header list, peer and trust configuration the direct extractor ignores headers; X-Real-IP is used iff the peer is trusted and the header parses; the X-Forwarded-For result is decided by the right-most untrusted/unparsable entry so that anything to its left is irrelevant (relational theorem); results are valid IPs when the peer is; isPrivateIPRange (regenerated from ip.go each run) equals the RFC 1918 / RFC 4193 ranges for every byte value, loopback/link-local per RFC. Model compared with Context.RealIP on generated requests.",
+        technique="Coq proofs (induction over the entry list; finite byte sweeps lifted with forallb_forall) + go/ast-generated isPrivateIPRange + differential correspondence",
+        trusted=["net.ParseIP / IP.String / IP.To4 / net.SplitHostPort / net.ParseCIDR are oracles (their verdict per string is supplied by the harness); IsLoopback, IsLinkLocalUnicast, IPNet.Contains are modelled by hand and validated by the correspondence",
+                 "strings.TrimSpace modelled for ASCII whitespace (generator is ASCII-only)",
+                 "the reference extractor in the harness (written from the property text with RFC CIDR ranges) is the implementation-only predicate"],
+        assumptions=["C10_xff_valid assumes the canonical form of a parsed address parses again (net.IP.String / ParseIP round trip)"],
+    ),
 }
